@@ -248,6 +248,7 @@ def match_known(pid, job, v, known):
 
 def execute(prop, tier, seed):
     from . import scratch
+    scratch.sweep_stale()
     run = Run(prop, tier, seed)
     pid = prop.ID
     repo = scratch.repo_root()
